@@ -18,10 +18,10 @@ pub async fn list_files(site: &str, date: &NaiveDate) -> crate::result::Result<V
         .objects
         .iter()
         .map(|object| {
-            let key_parts = object.key.split('/');
-            let name = key_parts.skip(4).collect::<String>();
+            // The file name is the final path segment of the key
+            let name = object.key.rsplit('/').next().unwrap_or(object.key.as_ref());
 
-            Identifier::new(name)
+            Identifier::new(name.to_string())
         })
         .collect();
 
